@@ -206,22 +206,10 @@ func fieldType(ntype reflect.Type, name string) (reflect.Type, bool) {
 		case reflect.Interface:
 			return interfaceType, true
 		case reflect.Struct:
-			// First check all struct's fields.
-			for i := 0; i < ntype.NumField(); i++ {
-				f := ntype.Field(i)
-				if f.Name == name {
-					return f.Type, true
-				}
-			}
-
-			// Second check fields of embedded structs.
-			for i := 0; i < ntype.NumField(); i++ {
-				f := ntype.Field(i)
-				if f.Anonymous {
-					if t, ok := fieldType(f.Type, name); ok {
-						return t, true
-					}
-				}
+			// Own and promoted fields, resolved the way Go (and the run-time
+			// lookup by reflection) does: shallowest depth, no ambiguity, exported.
+			if f, ok := ntype.FieldByName(name); ok && f.PkgPath == "" {
+				return f.Type, true
 			}
 		case reflect.Map:
 			return ntype.Elem(), true
@@ -255,22 +243,10 @@ func methodType(t reflect.Type, name string) (reflect.Type, bool, bool) {
 		case reflect.Interface:
 			return interfaceType, false, true
 		case reflect.Struct:
-			// First, check all struct's fields.
-			for i := 0; i < d.NumField(); i++ {
-				f := d.Field(i)
-				if !f.Anonymous && f.Name == name {
-					return f.Type, false, true
-				}
-			}
-
-			// Second, check fields of embedded structs.
-			for i := 0; i < d.NumField(); i++ {
-				f := d.Field(i)
-				if f.Anonymous {
-					if t, method, ok := methodType(f.Type, name); ok {
-						return t, method, true
-					}
-				}
+			// A function-valued field, own or promoted (promoted methods are in
+			// the method set inspected above).
+			if f, ok := d.FieldByName(name); ok && f.PkgPath == "" {
+				return f.Type, false, true
 			}
 
 		case reflect.Map:
